@@ -1,9 +1,139 @@
-(* C10 — property theorems only. *)
+(* C10 — property theorems only.  Each is closed by [exact] of a lemma of
+   Proofs.v and followed by Print Assumptions.  They hold for every class
+   table (any number of classes and traits, every default kind), every world
+   and every operation / history; [wf] (allocator above every object, every
+   call counter is 1 and belongs to a materialised attribute) holds of every
+   world without instances and is preserved by every operation. *)
 From Coq Require Import ZArith List Bool.
 From TV Require Import Common.Harness C10.Model C10.Law C10.Corr C10.Proofs.
 Import ListNotations.
 Open Scope Z_scope.
 
-Theorem class_table_never_mutated : forall w o, w_classes (fst (step w o)) = w_classes w.
-Proof. exact class_table_const. Qed.
+(* First read of a never-assigned trait: the declared default (of the instance
+   trait if one shadows the class trait), allocated at the allocator position,
+   stored in __dict__; the handler log is exactly as before (silent); nothing
+   else in the instance changes except the call counter of a counted default. *)
+Theorem first_read_is_default_and_silent :
+  forall (w : world) (i n : Z) (t : tdef),
+    valid_index w i -> alookup n (i_dict (inst_at w i)) = None -> resolve w (inst_at w i) n = Some t ->
+    let ins := inst_at w i in
+    let v := fst (default_value t (w_next w)) in
+    step w (Read i n)
+    = (mkW (w_classes w)
+           (update_nth (Z.to_nat i)
+              (fun _ => mkI (i_cls ins) (i_dict ins ++ [(n, v)]) (i_itraits ins)
+                            (if counted t then bump n (i_calls ins) else i_calls ins) (i_log ins) (i_regs ins))
+              (w_insts w))
+           (snd (default_value t (w_next w))),
+       v).
+Proof. exact first_read. Qed.
+Print Assumptions first_read_is_default_and_silent.
+
+(* Later reads return the same object and change nothing at all. *)
+Theorem later_reads_same_object :
+  forall (w : world) (i n : Z) (t : tdef),
+    valid_index w i -> alookup n (i_dict (inst_at w i)) = None -> resolve w (inst_at w i) n = Some t ->
+    let w1 := fst (step w (Read i n)) in
+    let v := snd (step w (Read i n)) in
+    step w1 (Read i n) = (w1, v).
+Proof. exact later_reads_same. Qed.
+Print Assumptions later_reads_same_object.
+
+Theorem stored_value_read_is_inert :
+  forall (w : world) (i n : Z) (v : value),
+    valid_index w i -> alookup n (i_dict (inst_at w i)) = Some v -> step w (Read i n) = (w, v).
+Proof. exact stored_read. Qed.
+Print Assumptions stored_value_read_is_inert.
+
+(* _name_default methods and factories run at most once per instance and
+   attribute, in every history from a world without instances — and a counter
+   that is 1 belongs to an attribute whose value is stored. *)
+Theorem default_method_at_most_once :
+  forall (cls : list (list (Z * tdef))) (next0 : Z) (ops : list op) (ins : inst) (n c : Z),
+    In ins (w_insts (final (mkW cls [] next0) ops)) -> In (n, c) (i_calls ins) ->
+    c = 1 /\ alookup n (i_dict ins) <> None.
+Proof. exact default_method_once. Qed.
+Print Assumptions default_method_at_most_once.
+
+(* Non-interference: a history none of whose operations targets instance j
+   leaves the complete view of j (values, identities, instance traits,
+   counters, handler calls, registrations) exactly as it was. *)
+Theorem non_interference :
+  forall (ops : list op) (w : world) (j : nat),
+    (j < length (w_insts w))%nat -> Forall (fun o => op_index o <> Some (Z.of_nat j)) ops ->
+    nth_error (w_insts (final w ops)) j = nth_error (w_insts w) j.
+Proof. exact final_other_instance. Qed.
+Print Assumptions non_interference.
+
+(* ... an instance created after any history starts with the empty view ... *)
+Theorem instance_created_later_is_unaffected :
+  forall (ops : list op) (w : world) (c : Z),
+    let w1 := final w ops in
+    nth_error (w_insts (fst (step w1 (NewInst c)))) (length (w_insts w1)) = Some (new_inst c)
+    /\ w_classes (fst (step w1 (NewInst c))) = w_classes w.
+Proof.
+  intros ops w c. cbn zeta. split.
+  - exact (proj1 (new_instance_is_empty (final w ops) c)).
+  - rewrite step_classes. exact (final_classes ops w).
+Qed.
+Print Assumptions instance_created_later_is_unaffected.
+
+(* ... and the class tables are never written. *)
+Theorem class_table_never_mutated :
+  forall (ops : list op) (w : world), w_classes (final w ops) = w_classes w.
+Proof. exact final_classes. Qed.
 Print Assumptions class_table_never_mutated.
+
+(* Well-formedness is an invariant ... *)
+Theorem wellformed_worlds_are_closed :
+  (forall cls next0, 0 < next0 -> below next0 (flat_map (fun c => map (fun p => t_doid (snd p)) c) cls) ->
+                     wf (mkW cls [] next0))
+  /\ (forall ops w, wf w -> wf (final w ops)).
+Proof. split; [exact wf_init | exact final_wf]. Qed.
+Print Assumptions wellformed_worlds_are_closed.
+
+(* ... under which a default just read aliases nothing: no object of another
+   instance, of the same instance, and no class-level default object. *)
+Theorem defaults_never_aliased :
+  forall (w : world) (i n : Z) (t : tdef),
+    wf w -> valid_index w i -> alookup n (i_dict (inst_at w i)) = None -> resolve w (inst_at w i) n = Some t ->
+    forall x, In x (value_oids (snd (step w (Read i n)))) -> ~ In x (world_oids w).
+Proof. exact default_not_aliased. Qed.
+Print Assumptions defaults_never_aliased.
+
+(* The whole law (all clauses of C10/Law.v) holds on what the model shows, at
+   every step of every valid history from every well-formed world. *)
+Theorem law_holds_on_every_history :
+  forall (ops : list op) (w : world) (k : Z), wf w -> valid_hist w ops -> law_hist k w (obs_run w ops) = [].
+Proof. exact law_on_histories. Qed.
+Print Assumptions law_holds_on_every_history.
+
+(* Non-vacuity: two classes (a subclass overriding a list default), three
+   instances, interleaved reads / mutation / handler registration / add_trait:
+   the siblings get their own fresh containers with the declared contents, the
+   counted default ran once per instance, handlers registered on instance 0 are
+   invisible on instances 1 and 2, and the class tables are as declared. *)
+Example history_nontrivial :
+  let tl := mkT KTraitList [1; 2] 0 1 1 true in
+  let tm := mkT KMethod [7] 0 0 0 false in
+  let ta := mkT KEvent [] 0 0 1 true in
+  let cls := [[(0, tl); (1, tm); (-1, ta)]; [(0, mkT KTraitList [3] 0 2 1 true); (1, tm); (-1, ta)]] in
+  let w0 := mkW cls [] 3 in
+  let ops := [NewInst 0; NewInst 1; Read 0 0; Mutate 0 0 9; Register 0 0 1 true; Assign 0 0 [5] 0; Read 0 1; Read 0 1;
+              AddTrait 0 50 (mkT KTraitList [4] 0 0 0 false); NewInst 0; Read 1 0; Read 2 0; Read 2 1] in
+  let w := final w0 ops in
+  wf w0 /\ valid_hist w0 ops
+  /\ map i_dict (w_insts w)
+     = [[(0, mkV 5 [(4, [5])]); (1, mkV 5 [(5, [7])])];
+        [(0, mkV 5 [(7, [3])])];
+        [(0, mkV 5 [(8, [1; 2])]); (1, mkV 5 [(9, [7])])]]
+  /\ map i_calls (w_insts w) = [[(1, 1)]; []; [(1, 1)]]
+  /\ map i_log (w_insts w) = [[(0, 0, [1; 2; 9], [5]); (1, 0, [1; 2; 9], [5])]; []; []]
+  /\ map (fun i => map fst (i_itraits i)) (w_insts w) = [[0; -1; 1050; 50]; []; []]
+  /\ w_classes w = cls.
+Proof.
+  cbn zeta. split; [|split].
+  - apply wf_init; [reflexivity|]. apply Forall_forall. intros x Hx. vm_compute in Hx. intuition (subst; reflexivity).
+  - apply valid_histb_ok. vm_compute. reflexivity.
+  - vm_compute. repeat split; reflexivity.
+Qed.
